@@ -12,6 +12,8 @@ def dispatch (j : Json) : R Json := do
   | "encode_events" => handleEncodeEvents j
   | "pyint" => handlePyInt j
   | "pyfloat" => handlePyFloat j
+  | "getitem" => handleGetitem j
+  | "slice_indices" => handleSliceIndices j
   | "ping" => pure (Json.mkObj [("pong", Json.bool true)])
   | _ => throw s!"unknown op {op}"
 
